@@ -96,7 +96,7 @@ Proof.
     destruct (accrue_gap _ _ _ _ Hacc Hcache Hok) as (_ & G).
     eexists. split; [eapply nth_bank_of_eq; eauto|left; exact G].
   - (* collect fees *)
-    destruct (h_collect_fees_effect _ _ _ H) as (hb0 & hb0' & (E1 & E3 & _) & S1 & S2 & T1 & T2 & V1 & V2 & M).
+    destruct (h_collect_fees_effect _ _ _ H) as (hb0 & hb0' & (E1 & E3 & _) & S1 & S2 & T1 & T2 & V1 & V2 & M & _).
     destruct (b0 =? b)%nat eqn:Eb; [|eapply Hsame; eauto].
     assert (b0 = b) by lia. subst b0. rewrite Hb in E1. apply Ok_inj in E1. subst hb0.
     destruct (Hbanks _ _ Hb) as (Hok & _).
